@@ -1,2 +1,91 @@
--- line-protocol driver for C03 (stub; replaced when the property is built)
-def main : IO Unit := IO.println "stub"
+import Verif.Model.SignNames
+/-!
+  Line-protocol driver for C03 (X.509 token signing: names, key, provisioner extension).
+
+  One sign request per line, `key=value` fields separated by single spaces:
+    prov=jwk|x5c|oidc|oidcadm  tpl=0|1  dis=0|1  gen=x<hex DER>
+    sub=<san>  sans=<san>,…|-  cnf=-|!|0|1  oem=<san>|-  oiss=<san>|-
+    sig=0|1  ccn=x<hex>  cdns= cip= cem= curi=   (lists of x<hex>, `-` when empty)
+    key=<n>  keyok=0|1  cext=<ext>,…|-  ud=0|1  uext=<ext>,…|-  uoth=<n>  enct=0|1  encc=0|1
+  san = `d|i|e|u` `:` x<raw> `:` x<canonical>;  ext = `<oid number>:x<value>` (oid 0 = provisioner OID)
+  Output: refuse:<status> | error | issue cn=… dns=… ip=… em=… uri=… key=<n> ext=… | parse-error
+-/
+open Verif Verif.SignNames
+
+namespace C03
+
+def str? (t : String) : Option Str :=
+  if t.startsWith "x" then unhex (t.drop 1).toString else none
+
+def bool? (t : String) : Option Bool :=
+  if t = "1" then some true else if t = "0" then some false else none
+
+def list? {α : Type} (f : String → Option α) (t : String) : Option (List α) :=
+  if t = "-" then some [] else (t.splitOn ",").mapM f
+
+def kind? (t : String) : Option Kind :=
+  match t with
+  | "d" => some .dns | "i" => some .ip | "e" => some .email | "u" => some .uri | _ => none
+
+def san? (t : String) : Option San :=
+  match t.splitOn ":" with
+  | [k, a, b] => do pure ⟨(← kind? k), (← str? a), (← str? b)⟩
+  | _ => none
+
+def optSan? (t : String) : Option (Option San) :=
+  if t = "-" then some none else (san? t).map some
+
+def ext? (t : String) : Option Ext :=
+  match t.splitOn ":" with
+  | [a, b] => do pure ⟨(← a.toNat?), (← str? b)⟩
+  | _ => none
+
+def cnf? (t : String) : Option Cnf :=
+  match t with
+  | "-" => some .absent | "!" => some .undecodable
+  | "0" => some (.present false) | "1" => some (.present true) | _ => none
+
+def prov? (t : String) : Option Prov :=
+  match t with
+  | "jwk" => some .jwk | "x5c" => some .x5c
+  | "oidc" => some (.oidc false) | "oidcadm" => some (.oidc true) | _ => none
+
+def lookup (kv : List (String × String)) (k : String) : Option String :=
+  (kv.find? (·.1 = k)).map (·.2)
+
+def xs (a : Str) : String := "x" ++ hex a
+
+def listS (l : List String) : String := if l.isEmpty then "-" else ",".intercalate l
+
+def certS (c : Cert) : String :=
+  s!"issue cn={xs c.cn} dns={listS (c.dns.map xs)} ip={listS (c.ips.map xs)} em={listS (c.emails.map xs)} uri={listS (c.uris.map xs)} key={c.key} ext={listS (c.exts.map fun e => s!"{e.oid}:{xs e.val}")}"
+
+def eval (line : String) : Option String := do
+  let kv := (fields line).filterMap fun f =>
+    match f.splitOn "=" with
+    | [k, v] => some (k, v)
+    | _ => none
+  let get := fun k => lookup kv k
+  let cfg : Cfg := {
+    prov := (← prov? (← get "prov")), hasTemplate := (← bool? (← get "tpl")),
+    extDisabled := (← bool? (← get "dis")), gen := ⟨0, (← str? (← get "gen"))⟩ }
+  let tok : Token := {
+    sub := (← san? (← get "sub")), sans := (← list? san? (← get "sans")),
+    cnf := (← cnf? (← get "cnf")), email := (← optSan? (← get "oem")), issUri := (← optSan? (← get "oiss")) }
+  let csr : CSR := {
+    sigOK := (← bool? (← get "sig")), cn := (← str? (← get "ccn")),
+    dns := (← list? str? (← get "cdns")), ips := (← list? str? (← get "cip")),
+    emails := (← list? str? (← get "cem")), uris := (← list? str? (← get "curi")),
+    key := (← (← get "key").toNat?), keyOK := (← bool? (← get "keyok")),
+    exts := (← list? ext? (← get "cext")) }
+  let hasUd ← bool? (← get "ud")
+  let ud : UserData := { exts := (← list? ext? (← get "uext")), other := (← (← get "uoth").toNat?) }
+  let enc : Enc := ⟨(← bool? (← get "enct")), (← bool? (← get "encc"))⟩
+  match sign cfg tok csr (if hasUd then some ud else none) enc with
+  | .refused st => pure s!"refuse:{st}"
+  | .error => pure "error"
+  | .issued c => pure (certS c)
+
+end C03
+
+def main : IO Unit := Verif.lineLoop fun l => (C03.eval l).getD "parse-error"
